@@ -32,6 +32,7 @@ type State struct {
 	Perm   map[string]*Term
 	Empty  bool // a fresh chain: every store closed and empty, bank ledgers zero
 	Init   *InitOracle
+	Prefix string // names of a second chain's initial symbols / store records (joint harnesses): "L1/"
 }
 
 // InitOracle: the (arbitrary but fixed) pre-state of open-world stores, shared by every fork of one chain
@@ -56,7 +57,7 @@ func newState() *State {
 }
 
 func (s *State) clone() *State {
-	n := &State{Stores: map[string]*Store{}, Bal: s.Bal, Sup: s.Sup, Acc: s.Acc, Meta: s.Meta, Ghost: map[string]Value{}, Perm: map[string]*Term{}, Empty: s.Empty, Init: s.Init}
+	n := &State{Stores: map[string]*Store{}, Bal: s.Bal, Sup: s.Sup, Acc: s.Acc, Meta: s.Meta, Ghost: map[string]Value{}, Perm: map[string]*Term{}, Empty: s.Empty, Init: s.Init, Prefix: s.Prefix}
 	for k, st := range s.Stores {
 		ns := &Store{Name: st.Name, Closed: st.Closed, Inited: st.Inited}
 		for _, en := range st.Entries {
@@ -74,7 +75,7 @@ func (s *State) clone() *State {
 }
 
 func (s *State) assign(o *State) {
-	s.Stores, s.Bal, s.Sup, s.Acc, s.Meta, s.Ghost, s.Perm, s.Empty, s.Init = o.Stores, o.Bal, o.Sup, o.Acc, o.Meta, o.Ghost, o.Perm, o.Empty, o.Init
+	s.Stores, s.Bal, s.Sup, s.Acc, s.Meta, s.Ghost, s.Perm, s.Empty, s.Init, s.Prefix = o.Stores, o.Bal, o.Sup, o.Acc, o.Meta, o.Ghost, o.Perm, o.Empty, o.Init, o.Prefix
 }
 
 // ---------- context ----------
@@ -159,7 +160,7 @@ func (e *Exec) storeOf(c *CtxV, coll *CollV) *Store {
 					st.Entries = append(st.Entries, &Entry{Key: en.Key, KeyV: en.KeyV, Present: en.Present, Val: deepCopy(en.Val)})
 				}
 			} else {
-				e.initClosed(st, coll, n)
+				e.initClosedP(st, coll, n, c.St.Prefix)
 				var init []*Entry
 				for _, en := range st.Entries {
 					init = append(init, &Entry{Key: en.Key, KeyV: en.KeyV, Present: en.Present, Val: deepCopy(en.Val)})
@@ -174,8 +175,10 @@ func (e *Exec) storeOf(c *CtxV, coll *CollV) *Store {
 }
 
 // initClosed: the store holds exactly m ≤ n entries with strictly increasing symbolic keys
-func (e *Exec) initClosed(st *Store, coll *CollV, n int) {
-	tag := e.fresh("st."+coll.Name+".count", IntSort)
+func (e *Exec) initClosed(st *Store, coll *CollV, n int) { e.initClosedP(st, coll, n, "") }
+
+func (e *Exec) initClosedP(st *Store, coll *CollV, n int, prefix string) {
+	tag := e.fresh("st."+prefix+coll.Name+".count", IntSort)
 	alts := make([]*Term, n+1)
 	for i := range alts {
 		alts[i] = Eq(tag, IntI(int64(i)))
@@ -188,7 +191,7 @@ func (e *Exec) initClosed(st *Store, coll *CollV, n int) {
 	m := e.decide(alts)
 	e.assertPC(Eq(tag, IntI(int64(m))))
 	for i := 0; i < m; i++ {
-		name := fmt.Sprintf("st.%s[%d]", coll.Name, i)
+		name := fmt.Sprintf("st.%s%s[%d]", prefix, coll.Name, i)
 		var kv Value
 		var key []*Term
 		if coll.Kind == "map" {
@@ -197,7 +200,7 @@ func (e *Exec) initClosed(st *Store, coll *CollV, n int) {
 		}
 		val := e.symValue(coll.VT, name)
 		en := &Entry{Key: key, KeyV: kv, Present: true, Val: val}
-		e.inits = append(e.inits, initRec{Coll: coll.Name, Key: key, Present: true, Val: deepCopy(val)})
+		e.inits = append(e.inits, initRec{Coll: prefix + coll.Name, Key: key, Present: true, Val: deepCopy(val)})
 		if i > 0 {
 			e.assertPC(e.keyLess(st.Entries[i-1].Key, key, coll.KT))
 		}
@@ -350,7 +353,7 @@ func (e *Exec) lookupEntry(c *CtxV, coll *CollV, kv Value) *Entry {
 			}
 		}
 	}
-	name := fmt.Sprintf("st.%s{%d}", coll.Name, len(st.Entries))
+	name := fmt.Sprintf("st.%s%s{%d}", c.St.Prefix, coll.Name, len(st.Entries))
 	p := e.fresh(name+".present", BoolSort)
 	en := &Entry{Key: k, KeyV: kv}
 	if e.decideBool(p) {
@@ -358,7 +361,7 @@ func (e *Exec) lookupEntry(c *CtxV, coll *CollV, kv Value) *Entry {
 		en.Val = e.symValue(coll.VT, name)
 	}
 	st.Entries = append(st.Entries, en)
-	e.inits = append(e.inits, initRec{Coll: coll.Name, Key: k, Present: en.Present, Val: deepCopy(en.Val)})
+	e.inits = append(e.inits, initRec{Coll: c.St.Prefix + coll.Name, Key: k, Present: en.Present, Val: deepCopy(en.Val)})
 	if c.St.Init != nil {
 		c.St.Init.m[coll.Name] = append(c.St.Init.m[coll.Name], &Entry{Key: k, KeyV: kv, Present: en.Present, Val: deepCopy(en.Val)})
 	}
